@@ -643,6 +643,10 @@ def apply_ops(unit, fn_text, log):
                 bs, be = k, j
                 body_txt = '{ ' + s[bs:be].strip() + ' }'
             head = a['params'] + ' -> (' + a['ret'] + ')\n' + payload.rstrip('\n') + '\n'
+            if 'bodyprefix' in a:
+                # a pattern parameter (`|(k, v)|`) is not accepted by Verus: the parameter is named in
+                # `params` and the original pattern is bound by a `let` at the start of the verbatim body
+                body_txt = '{ ' + a['bodyprefix'] + ' ' + body_txt + ' }'
             s = s[:st] + head + body_txt + s[be:]
             log.append({'unit': unit.id, 'rule': 'E12', 'what': 'closure `%s` given contract (%s)' % (a['find'], a['ret'])})
         elif kind == 'wrap':
